@@ -318,6 +318,13 @@ def run(ck, c10, Event, flood, labels, have_driver):
             return b2, dict(big_replay(small, route, p), impl_output_us_rel=c10.rel(o2))
         R.call("big", route, p, TX.build(Event, specs), replay=lambda specs=specs, route=route, p=p: big_replay(specs, route, p),
                fast=True, shrink=shrink)
+    from . import c10_edge          # round 5: containers, data dict types, numeric extremes, faults
+    try:
+        c10_edge.run(R)
+    except Exception as ex:  # noqa: BLE001    a tree on which the edge streams cannot even run: the tie is not established
+        import traceback
+        ck.disagreement("edge streams", f"harness/c10_edge.py could not complete against this tree: {type(ex).__name__}: {str(ex)[:200]}",
+                        {"traceback": traceback.format_exc()[-1500:]})
     R.compare_with_model()
     TX.prefer_session_failure(ck)
     ck.coverage["round3"] = {
